@@ -45,13 +45,13 @@ var (
 	corpus  = flag.String("corpus", "", "corpus file: <tree tokens>;<data tokens> per line, hex encoded")
 	known   = flag.String("known", "", "known_findings.json")
 	workers = flag.Int("workers", 16, "parallel workers")
-	dev     = flag.String("dev", "-", "deviations the tree under test is expected to have; the current tree has none (-). For older trees: u uncomparable panic (before 0a3fd2c), q float != x (before 21415f8), v int compared as float64 (before 24fcf54), b a filter that is a bare path is not an existence test (before 6b93c2a; trees before fe63c88 are no longer supported), r parser takes the second argument of match/search apart (before cd355fe)")
+	dev     = flag.String("dev", "-", "deviations the tree under test is expected to have; the current tree has none (-). For older trees: u uncomparable panic (before 0a3fd2c), q float != x (before 21415f8), v int compared as float64 (before 24fcf54), i == on two struct/array values holding a slice or map in an interface-typed field panics (the CURRENT tree, until notes/proposed_fixes/C12_iface_field_panic.md is applied), b a filter that is a bare path is not an existence test (before 6b93c2a; trees before fe63c88 are no longer supported), r parser takes the second argument of match/search apart (before cd355fe)")
 )
 
 var rep *lib.Report
 var knownList []lib.Known
 
-var devIDs = map[byte]string{'u': "C12-uncomparable-panic", 'q': "C12-neq-float", 'v': "C12-int-via-float64"}
+var devIDs = map[byte]string{'u': "C12-uncomparable-panic", 'q': "C12-neq-float", 'v': "C12-int-via-float64", 'i': ifaceID}
 
 const bareID = "C12-bare-path"
 const fnargID = "C12-fn-arg-rotation"
@@ -315,7 +315,7 @@ func expect(mode, chars string, data []any) string {
 
 // ---- one case ------------------------------------------------------------------------------------------
 
-type answer struct{ S, M, F, u, q, v string }
+type answer struct{ S, M, F, u, q, v, i string }
 
 func parseAnswer(s string) (a answer, err error) {
 	for _, part := range strings.Split(s, "|") {
@@ -336,6 +336,8 @@ func parseAnswer(s string) (a answer, err error) {
 			a.q = kv[1]
 		case "v":
 			a.v = kv[1]
+		case "i":
+			a.i = kv[1]
 		}
 	}
 	return a, nil
@@ -714,11 +716,13 @@ func judge(k kase, routes []route, model map[string]answer) {
 						alt = a.q
 					case 'v':
 						alt = a.v
+					case 'i':
+						alt = a.i
 					default:
 						continue
 					}
 					if expect(r.mode, alt, k.data) != expM {
-						if c == 'u' && !strings.Contains(r.msg, "comparing uncomparable type") {
+						if (c == 'u' || c == 'i') && !strings.Contains(r.msg, "comparing uncomparable type") {
 							continue
 						}
 						id = devIDs[c]
